@@ -86,7 +86,7 @@ func floatToFixed(cv *dyn.ConvOp) bool { return cv.S.Kind == dyn.KFloat && cv.D.
 func runC08(c *core.Ctx) {
 	var tasks []floatTask
 	total := uint64(2 * f32Half)
-	for _, cv := range dyn.Convs {
+	for _, cv := range dyn.AllConvs() {
 		if !floatToFixed(cv) {
 			continue
 		}
@@ -101,7 +101,7 @@ func runC08(c *core.Ctx) {
 			}
 		}
 	}
-	for _, cv := range dyn.Convs {
+	for _, cv := range dyn.AllConvs() {
 		if floatToFixed(cv) {
 			tasks = append(tasks, floatTask{cv: cv})
 		}
